@@ -145,6 +145,8 @@ impl Pool {
 
 pub fn run_c18(cx: &Ctx) -> i32 {
     engine::quiet_panics();
+    // the controlling thread is the first thread of the process to run the VM
+    let _ = Regex::new("a(?=b)").map(|r| r.is_match("ab"));
     // Explorations of different corpus items (and sub-trees of one exploration) run concurrently.
     // That is sound only while searches do not influence each other; if a replay diverges or does
     // not reproduce, everything is redone strictly one schedule at a time, and a divergence that
@@ -372,10 +374,10 @@ fn run_mode(cx: &Ctx, serial: bool) -> Option<i32> {
         let bad: std::sync::Mutex<Option<(usize, usize, String)>> = std::sync::Mutex::new(None);
         // more threads than regex-automata's pool has stacks (8), so that non-owner threads share one
         let nthreads = 24usize;
-        std::thread::scope(|s| {
-            for th in 0..nthreads {
+        {
+            let work = |th: usize| {
                 let (re, expected, bad, item) = (&re, &expected, &bad, &item);
-                s.spawn(move || {
+                {
                     engine::quiet_panics();
                     let re: &Regex = &re.0;
                     let local = if th % 2 == 0 { None } else { Some(re.clone()) };
@@ -395,10 +397,19 @@ fn run_mode(cx: &Ctx, serial: bool) -> Option<i32> {
                             return;
                         }
                     }
-                });
-            }
-        });
-        stress_calls += (nthreads * stress_rounds) as u64;
+                }
+            };
+            let work = &work;
+            std::thread::scope(|s| {
+                for th in 0..nthreads {
+                    s.spawn(move || work(th));
+                }
+                // the controlling thread takes part as well: it has used this Regex (and the VM) before
+                // any of the other threads existed - the "first thread" of owner-style caches
+                work(nthreads);
+            });
+        }
+        stress_calls += ((nthreads + 1) * stress_rounds) as u64;
         if let Some((ti, kind, got)) = bad.into_inner().unwrap() {
             t.violation(
                 2,
@@ -418,7 +429,7 @@ fn run_mode(cx: &Ctx, serial: bool) -> Option<i32> {
         t,
         Finish {
             rule: format!(
-                "static: the separate crate c18static asserting Regex: Send + Sync + Clone must compile. Dynamic (E3): for each of the {} corpus patterns (VM programs with delegates, groups, look-around, backreference, atomic group, counted repeat, conditional, \\K, \\G; and whole-pattern hand-off), configurations (threads, preemption bound, calls per thread) {:?}, on one shared &Regex and on clones: every schedule with at most that many preemptions is executed on real OS threads (baton passing; scheduling points at run entry/exit and before every VM instruction, hook H4; switching away from a finished thread is free); oracle: every call (captures / find_iter; thread i starts with entry point i, so that one thread iterates while another searches) returns exactly its sequential result, no panic; the first schedule and every failing schedule are replayed and must reproduce; supplementary and labelled as sampling (not counted in the coverage): the same calls, and two patterns on texts of 600-1300 characters, on 24 free-running threads; distinct_nontrivial = schedules of VM-compiled patterns",
+                "static: the separate crate c18static asserting Regex: Send + Sync + Clone must compile. Dynamic (E3): for each of the {} corpus patterns (VM programs with delegates, groups, look-around, backreference, atomic group, counted repeat, conditional, \\K, \\G; and whole-pattern hand-off), configurations (threads, preemption bound, calls per thread) {:?}, on one shared &Regex and on clones: every schedule with at most that many preemptions is executed on real OS threads (baton passing; scheduling points at run entry/exit and before every VM instruction, hook H4; switching away from a finished thread is free); oracle: every call (captures / find_iter; thread i starts with entry point i, so that one thread iterates while another searches) returns exactly its sequential result, no panic; the first schedule and every failing schedule are replayed and must reproduce; supplementary and labelled as sampling (not counted in the coverage): the same calls, and two patterns on texts of 600-1300 characters, on 24 free-running threads plus the controlling thread (the first thread of the process to have used the VM and each Regex); distinct_nontrivial = schedules of VM-compiled patterns",
                 corpus().len(),
                 configs
             ),
